@@ -462,6 +462,27 @@ def _other(kind, seed):
 _COUNTER = [0]
 
 
+def _scribble(obj):
+    """overwrite the arrays and descriptor dicts of a loaded object in place"""
+    for name in ('dissimilarities', 'measurements', 'evaluations', 'variances', 'noise_ceiling'):
+        a = getattr(obj, name, None)
+        if isinstance(a, np.ndarray) and a.size and a.flags.writeable:
+            a[...] = -7
+    for name in ('descriptors', 'rdm_descriptors', 'pattern_descriptors', 'obs_descriptors', 'channel_descriptors'):
+        d = getattr(obj, name, None)
+        if isinstance(d, dict):
+            for k in list(d):
+                if isinstance(d[k], np.ndarray) and d[k].dtype.kind in 'if' and d[k].flags.writeable:
+                    d[k][...] = -7
+            d['scribbled'] = 'x' if name == 'descriptors' else None
+            if d['scribbled'] is None:
+                del d['scribbled']
+    for m in (getattr(obj, 'models', None) or []):
+        r = getattr(m, 'rdm', None)
+        if isinstance(r, np.ndarray) and r.flags.writeable:
+            r[...] = -7
+
+
 def _has_none(obj):
     for name in ('descriptors', 'rdm_descriptors', 'pattern_descriptors', 'obs_descriptors', 'channel_descriptors'):
         d = getattr(obj, name, None) or {}
@@ -484,9 +505,12 @@ def run_item(item, ctx, tmp, only=None):
         ext = '.hdf5' if file_type == 'hdf5' else '.pkl'
         exts = {'hdf5': ['.hdf5', '.h5'], 'pkl': ['.pkl']}[file_type]
         for target_kind in ('path', 'handle'):
-            for history in ('fresh', 'existing', 'same-handle'):
+            for history in ('fresh', 'existing', 'same-handle', 'existing-loaded'):
                 for overwrite in (False, True):
                     if history == 'same-handle' and not (target_kind == 'handle' and overwrite):
+                        continue
+                    if history == 'existing-loaded' and not (target_kind == 'path' and overwrite):
+                        # one path within one session: save A, load it, replace it by B, load again
                         continue
                     step = [file_type, target_kind, history, overwrite]
                     if only is not None and step != only:
@@ -508,9 +532,12 @@ def run_item(item, ctx, tmp, only=None):
                     with ctx.guard(sig, case), np.errstate(all='ignore'):
                         obj = make()
                         before = fp(kind, obj)
-                        if history == 'existing':
+                        if history in ('existing', 'existing-loaded'):
                             save(kind, _other(kind, ctx.seed), path, file_type, False)
                             old_bytes = open(path, 'rb').read()
+                        if history == 'existing-loaded':
+                            for k, msg in diff(kind, _other(kind, ctx.seed), load(kind, path, file_type)):
+                                ctx.fail('%s,first-object-of-path|%s' % (sig, k), case, msg)
                         expect_refusal = (history == 'existing' and not overwrite and file_type == 'hdf5'
                                           and target_kind == 'path')
                         if history == 'same-handle':
@@ -562,4 +589,10 @@ def run_item(item, ctx, tmp, only=None):
                                 back = load(kind, fh2, file_type)
                         for k, msg in diff(kind, ref, back):
                             ctx.fail('%s|%s' % (sig, k), case, msg)
+                        if target_kind == 'path':
+                            # a loaded object is the caller's own: writing into it must not show in the next
+                            # load of the (unchanged) file
+                            _scribble(back)
+                            for k, msg in diff(kind, ref, load(kind, path, file_type)):
+                                ctx.fail('%s,second-load-after-editing-first|%s' % (sig, k), case, msg)
                         ctx.outcome((item['obj'], file_type, len(open(path, 'rb').read()) // 64))
